@@ -119,10 +119,10 @@ func (h *connectHandler) NewConn(
 	// line with the values joined by commas.
 	var contentEncoding, acceptEncoding string
 	if h.Spec.StreamType == StreamTypeUnary {
-		contentEncoding = request.Header.Get(connectUnaryHeaderCompression)
+		contentEncoding = strings.Join(request.Header.Values(connectUnaryHeaderCompression), ",")
 		acceptEncoding = strings.Join(request.Header.Values(connectUnaryHeaderAcceptCompression), ",")
 	} else {
-		contentEncoding = request.Header.Get(connectStreamingHeaderCompression)
+		contentEncoding = strings.Join(request.Header.Values(connectStreamingHeaderCompression), ",")
 		acceptEncoding = strings.Join(request.Header.Values(connectStreamingHeaderAcceptCompression), ",")
 	}
 	requestCompression, responseCompression, failed := negotiateCompression(
